@@ -335,9 +335,15 @@ class Mailbox:
             optional = not (new_folder or r"\Marked" in mbox.attributes)
             async with mbox.mailbox.lock_folder():
                 await mbox.check_new_msgs_and_flags(optional=optional)
-            mbox.mgmt_task = asyncio.create_task(
-                mbox.management_task(), name=f"mbox '{mbox.name}' mgmt task"
-            )
+
+        # NOTE: A `\Noselect` mailbox needs its management task as well:
+        #       commands that name it (SELECT, STATUS, DELETE, RENAME) queue on
+        #       it like on any other mailbox and would otherwise never be
+        #       told to proceed.
+        #
+        mbox.mgmt_task = asyncio.create_task(
+            mbox.management_task(), name=f"mbox '{mbox.name}' mgmt task"
+        )
         return mbox
 
     ####################################################################
@@ -2894,10 +2900,11 @@ class Mailbox:
                 await mbox.commit_to_db()
                 async with mbox.mailbox.lock_folder():
                     await mbox.check_new_msgs_and_flags(optional=False)
-                mbox.mgmt_task = asyncio.create_task(
-                    mbox.management_task(),
-                    name=f"mbox '{mbox.name}' mgmt task",
-                )
+                if not hasattr(mbox, "mgmt_task") or mbox.mgmt_task.done():
+                    mbox.mgmt_task = asyncio.create_task(
+                        mbox.management_task(),
+                        name=f"mbox '{mbox.name}' mgmt task",
+                    )
             else:
                 raise MailboxExists(f"Mailbox '{name}' already exists")
 
